@@ -138,7 +138,7 @@ func (e *Engine) loadLoc(st *State, l loc, t types.Type) Val {
 	case *types.Map:
 		fail("map stored on the heap")
 	case *types.Chan:
-		return OpaqueV{"chan"}
+		return ChanV{ID: st.leafGet(l, "chid", 64), Cap: st.leafGet(l, "chcap", 64)}
 	}
 	fail("loadLoc: type %s", typeName(t))
 	return nil
@@ -212,6 +212,18 @@ func (e *Engine) storeLoc(st *State, l loc, t types.Type, v Val) {
 				st.leafSet(l, "iface", 64, z)
 				return
 			}
+		}
+	}
+	if cv, ok := v.(ChanV); ok {
+		st.leafSet(l, "chid", 64, cv.ID)
+		st.leafSet(l, "chcap", 64, cv.Cap)
+		return
+	}
+	if _, isChan := t.Underlying().(*types.Chan); isChan {
+		if _, ok := v.(NilV); ok {
+			st.leafSet(l, "chid", 64, z)
+			st.leafSet(l, "chcap", 64, z)
+			return
 		}
 	}
 	if _, ok := v.(OpaqueV); ok {
